@@ -3,6 +3,7 @@ mod infra;
 mod qcompile;
 mod render;
 mod sim;
+// REGISTRY (modules): one `mod cNN;` line per Engine-B/C check
 
 use infra::Tier;
 use std::time::Instant;
@@ -16,6 +17,7 @@ fn run_check(id: &str, tier: Tier) -> Result<infra::Report, String> {
     match id {
         "C03" => sim::checks::c03(tier),
         "C04" => sim::checks::c04(tier),
+        // REGISTRY (run): "CNN" => cNN::run(tier),
         _ => Err(format!("no check registered for {}", id)),
     }
 }
@@ -30,7 +32,10 @@ fn run_replay(id: &str, path: &std::path::Path) -> i32 {
             let (mon, oracle) = sim::checks::monitor_for(id);
             sim::driver::replay(replay, mon, oracle, true)
         }
-        other => Err(format!("unknown replay engine {:?}", other)),
+        _ => match id {
+            // REGISTRY (replay): "CNN" => cNN::replay(replay),
+            _ => Err(format!("no replay handler for {}", id)),
+        },
     };
     match r {
         Ok(true) => {
